@@ -140,6 +140,7 @@ class Extractor:
             if "_parse_error" not in self.methods:
                 raise AnalysisError("anchor CParser._parse_error vanished")
         self.token_effect = self._token_effect_methods()
+        self.swallows = []         # (production, line, exception names): handlers that catch the parser's own error
         self.productions = {n for n in self.methods if n.startswith("_parse_") and n not in self.noreturn and n != "_parse_error"}
         self.special_pred = {"_peek_declarator_name_info"}
         self.extra_roots = set()
@@ -1160,6 +1161,28 @@ class _Run:
             return
         if isinstance(stmt, (ast.Pass, ast.Delete, ast.Global, ast.Nonlocal, ast.Import, ast.ImportFrom)):
             self.emit(nid, (), nxt, st)
+            return
+        if isinstance(stmt, ast.Try):
+            # normal path: body, else, finally, then on.  An exception ends the parse (the error channel is terminal) unless a handler
+            # catches the parser's own error: that is recorded (several properties forbid it) and the handler is explored from the state
+            # at the `try` (handlers of this kind rewind the token stream before they go on).
+            tail = nxt
+            if stmt.finalbody:
+                tail = tail + ((stmt.finalbody, 0, "blk", stmt),)
+            if stmt.orelse:
+                tail = tail + ((stmt.orelse, 0, "blk", stmt),)
+            self.emit(nid, (), tail + ((stmt.body, 0, "blk", stmt),), st)
+            for h in stmt.handlers:
+                names = {x.id for x in ast.walk(h.type) if isinstance(x, ast.Name)} | {x.attr for x in ast.walk(h.type) if isinstance(x, ast.Attribute)} if h.type is not None else {"BaseException"}
+                if names & {"ParseError", "Exception", "BaseException"}:
+                    if (self.prod.name, h.lineno, sorted(names)) not in self.ex.swallows:
+                        self.ex.swallows.append((self.prod.name, h.lineno, sorted(names)))
+                    htail = nxt + ((stmt.finalbody, 0, "blk", stmt),) if stmt.finalbody else nxt
+                    s2 = st.bind(h.name, Val.OBJ) if h.name else st
+                    self.emit(nid, (("swallow", h.lineno),), htail + ((h.body, 0, "blk", stmt),), State((self.U.all, self.U.all), s2.envs, s2.marks))
+            return
+        if isinstance(stmt, ast.With):
+            self.emit(nid, (), nxt + ((stmt.body, 0, "blk", stmt),), st)
             return
         raise AnalysisError(f"{self.prod.name}: unsupported statement {type(stmt).__name__} at line {stmt.lineno}")
 
